@@ -91,6 +91,33 @@ def content(cid: int) -> bytes:
     return b'Subject: m%d\r\n\r\n' % cid + b'x' * (7 * cid) + b'\r\n'
 
 
+FAIL_MARK = b'X-Verif-Fail: 1'
+
+
+def content_fail() -> bytes:
+    """a message the backend refuses to store (see inject_append_failure)"""
+    return b'Subject: fail\r\n' + FAIL_MARK + b'\r\n\r\nx\r\n'
+
+
+def inject_append_failure() -> None:
+    """In the harness process only: MailboxData.append of both backends raises for a
+    message carrying FAIL_MARK, standing for any exception a backend can raise while
+    storing one message of a MULTIAPPEND (the all-or-nothing path of append_messages)."""
+    from pymap.backend.dict.mailbox import MailboxData as D
+    from pymap.backend.maildir.mailbox import MailboxData as M
+    for cls in (D, M):
+        if getattr(cls.append, '_verif', False):
+            continue
+        orig = cls.append
+
+        async def append(self, append_msg, *, recent=False, _orig=orig):
+            if FAIL_MARK in bytes(append_msg.literal):
+                raise RuntimeError('injected append failure')
+            return await _orig(self, append_msg, recent=recent)
+        append._verif = True
+        cls.append = append
+
+
 class Contents:
     """content bytes / size <-> content id, for one environment"""
 
@@ -125,9 +152,11 @@ class Contents:
         return cid not in self.unusable
 
     def of_bytes(self, raw: bytes) -> int:
-        return self.by_bytes.get(raw, 5_000_000 + len(raw))
+        return self.by_bytes.get(raw, 5_000_000 + len(raw))     # 5_000_000 = no content (Model.NO_CONTENT)
 
     def of_size(self, n: int) -> int:
+        if n == 0:
+            return 5_000_000
         if n in self.clash:
             return 6_000_000 + n
         return self.by_size.get(n, 6_000_000 + n)
@@ -235,8 +264,9 @@ def expand_set(b: bytes) -> list[int]:
     return out
 
 
-def read_response(data: bytes, contents: Contents, kind: str) -> dict:
-    """Canonical `out` of one command.  `kind` is 'select' or 'other'."""
+def read_response(data: bytes, contents: Contents, kind: str, names=None) -> dict:
+    """Canonical `out` of one command.  `kind` is 'select' or 'other'; `names` maps
+    mailbox names (STATUS) to the ids of the model."""
     rd = Reader(data)
     untagged: list = []
     sel = {'exists': None, 'recent': None, 'uidnext': None, 'unseen': None, 'perm': None}
@@ -262,7 +292,9 @@ def read_response(data: bytes, contents: Contents, kind: str) -> dict:
             rd.skip_sp()
             text = rd.line()
             c = _parse_code(text)
-            if word == b'BYE':
+            if word == b'BYE' and b'no longer exists' in text:
+                untagged.append(('BYE',))       # the selected mailbox is gone
+            elif word == b'BYE':
                 bye = text
             elif text.endswith(b'Moved.'):
                 untagged.append(('MOVED', c))
@@ -317,21 +349,37 @@ def read_response(data: bytes, contents: Contents, kind: str) -> dict:
                 else:
                     untagged.append((what.decode(), n))
             continue
-        # STATUS, SEARCH, LIST ... not used by the programs
+        if word == b'STATUS':
+            nm = rd.value()[1].decode()
+            items = rd.value()
+            rd.line()
+            d = {items[k][1].upper(): int(items[k + 1][1]) for k in range(0, len(items), 2)}
+            untagged.append(('STATUS', names.index(nm) if names and nm in names else 99,
+                             d.get(b'MESSAGES'), d.get(b'RECENT'), d.get(b'UIDNEXT'),
+                             d.get(b'UIDVALIDITY'), d.get(b'UNSEEN')))
+            continue
+        if word == b'SEARCH':
+            untagged.append(('SEARCH', [int(x) for x in rd.line().split()]))
+            continue
+        # LIST ... not used by the programs
         rd.line()
         extra.append(word)
     if kind == 'select' and cond == 'OK':
         untagged.insert(0, ('SELECT', sel['exists'], sel['recent'], sel['uidnext'],
                             sel['unseen'], sel['perm']))
+    if cond is None and bye is not None:
+        code = _parse_code(bye)
+    if code and code[0] == 'MAILBOXID':
+        code = None
     return {'cond': cond or 'BYE', 'code': code, 'untagged': untagged, 'extra': extra, 'bye': bye}
 
 
 # -------------------------------------------------------------- environments
-NAMES = {'dict': ['INBOX', 'Sent', 'Trash', 'Nope'],
-         'maildir': ['INBOX', 'Sent', 'Work', 'Nope']}
-# one keyword table for every folder (COPY/MOVE carry the file-name letters as they are)
-MAILDIR_KEYWORDS = {'INBOX': [b'$kw0', b'kw1', b'$Forwarded'], 'Work': [b'$kw0', b'kw1', b'$Forwarded'],
-                    'Sent': [b'$kw0', b'kw1', b'$Forwarded']}
+NAMES = {'dict': ['INBOX', 'Sent', 'Trash', 'Nope', 'Box4', 'Box5'],
+         'maildir': ['INBOX', 'Sent', 'Work', 'Nope', 'Box4', 'Box5']}
+# different keyword tables per folder (COPY/MOVE translate the file-name letters, 7d764ef)
+MAILDIR_KEYWORDS = {'INBOX': [b'$kw0', b'kw1', b'$Forwarded'], 'Work': [b'$Forwarded', b'$kw0'],
+                    'Sent': []}
 
 
 class Env:
@@ -350,6 +398,7 @@ class Env:
 
     async def start(self, rng, prefill: int = 0) -> 'Env':
         from .pymap_env import DictEnv, MaildirEnv
+        inject_append_failure()
         if self.kind == 'dict':
             self.env = await DictEnv().start()
             self.user = b'testuser'
@@ -413,10 +462,12 @@ class Env:
     async def dump_box(self, name: str, learn: bool = False) -> dict:
         p = self.probe
         nm = name.encode()
-        st = await p.send(b'p1 STATUS ' + nm + b' (MESSAGES RECENT UIDNEXT)\r\n')
-        m = re.search(rb'MESSAGES (\d+) RECENT (\d+) UIDNEXT (\d+)', st)
+        st = await p.send(b'p1 STATUS ' + nm + b' (MESSAGES RECENT UIDNEXT UIDVALIDITY)\r\n')
+        if b'p1 NO [NONEXISTENT]' in st:
+            return {'name': name, 'absent': True, 'probe_consistent': True}
+        m = re.search(rb'MESSAGES (\d+) RECENT (\d+) UIDNEXT (\d+) UIDVALIDITY (\d+)', st)
         assert m, st
-        n_msgs, n_recent, uidnext = (int(x) for x in m.groups())
+        n_msgs, n_recent, uidnext, uidv = (int(x) for x in m.groups())
         r = await p.send(b'p2 EXAMINE ' + nm + b'\r\n')
         assert b'p2 OK' in r, r
         r = await p.send(b'p3 UID FETCH 1:* (UID FLAGS INTERNALDATE RFC822.SIZE BODY.PEEK[])\r\n')
@@ -453,11 +504,11 @@ class Env:
         # consistency of the probe itself (protocol view vs white-box view)
         ok = (n_msgs == len(msgs) and sorted(rec) == [x['uid'] for x in msgs]
               and n_recent == sum(1 for v in rec.values() if v))
-        return {'name': name, 'msgs': msgs, 'maxuid': uidnext - 1, 'ro': ro, 'perm': perm,
+        return {'name': name, 'msgs': msgs, 'maxuid': uidnext - 1, 'uidv': uidv, 'ro': ro, 'perm': perm,
                 'probe_consistent': ok, 'status': (n_msgs, n_recent, uidnext)}
 
     async def dump(self, learn: bool = False) -> list[dict]:
-        return [await self.dump_box(n, learn) for n in self.real]
+        return [await self.dump_box(n, learn) for n in self.names]
 
     def tag(self) -> bytes:
         self.tagn += 1
@@ -524,16 +575,58 @@ def enc_seqset(ss) -> str:
                  else f'(SOne {idx(e)})' for e in ss)
 
 
+FLAG_KEYS = {b'\\Seen': (b'SEEN', b'UNSEEN'), b'\\Answered': (b'ANSWERED', b'UNANSWERED'),
+             b'\\Deleted': (b'DELETED', b'UNDELETED'), b'\\Draft': (b'DRAFT', b'UNDRAFT'),
+             b'\\Flagged': (b'FLAGGED', b'UNFLAGGED'), b'\\Recent': (b'RECENT', b'OLD')}
+
+
+def render_key(k) -> bytes:
+    kind = k[0]
+    if kind == 'all':
+        return b'ALL'
+    if kind == 'new':
+        return b'NEW'
+    if kind == 'flag':
+        f = canon_flag(k[1])
+        if f in FLAG_KEYS:
+            return FLAG_KEYS[f][0 if k[2] else 1]
+        return (b'KEYWORD ' if k[2] else b'UNKEYWORD ') + f
+    if kind == 'set':
+        return (b'UID ' if k[1] else b'') + render_seqset(k[2])
+    if kind == 'not':
+        return b'NOT ' + render_key(k[1])
+    if kind == 'or':
+        return b'OR ' + render_key(k[1]) + b' ' + render_key(k[2])
+    raise ValueError(k)
+
+
+def enc_key(k) -> str:
+    kind = k[0]
+    if kind == 'all':
+        return 'KAll'
+    if kind == 'new':
+        return 'KNew'
+    if kind == 'flag':
+        return f'(KFlag {enc_flag(k[1])} {T.boolean(k[2])})'
+    if kind == 'set':
+        return f'(KSet {T.boolean(k[1])} {enc_seqset(k[2])})'
+    if kind == 'not':
+        return f'(KNot {enc_key(k[1])})'
+    return f'(KOr {enc_key(k[1])} {enc_key(k[2])})'
+
+
 def render(cmd: dict, names: list[str]) -> bytes:
     k = cmd['k']
     u = b'UID ' if cmd.get('uid') else b''
     if k == 'select':
         return (b'EXAMINE ' if cmd['ro'] else b'SELECT ') + names[cmd['box']].encode()
     if k == 'append':
-        lit = content(cmd['cid'])
-        return (b'APPEND ' + names[cmd['box']].encode() + b' (' + b' '.join(cmd['spelled'])
-                + b') ' + render_date(cmd['date'], cmd.get('zone', 0))
-                + b' {%d}\r\n' % len(lit) + lit)
+        out = b'APPEND ' + names[cmd['box']].encode()
+        for m in cmd['msgs']:
+            lit = content_fail() if m.get('fail') else content(m['cid'])
+            out += (b' (' + b' '.join(m['spelled']) + b') ' + render_date(m['date'], m.get('zone', 0))
+                    + b' {%d}\r\n' % len(lit) + lit)
+        return out
     if k == 'store':
         item = {'replace': b'', 'add': b'+', 'delete': b'-'}[cmd['op']] + cmd.get('word', b'FLAGS') \
             + (b'.SILENT' if cmd['silent'] else b'')
@@ -551,6 +644,16 @@ def render(cmd: dict, names: list[str]) -> bytes:
         return u + b'FETCH ' + render_seqset(cmd['ss']) + b' ' + FETCH_MENU[cmd['attrs']][0]
     if k == 'close':
         return b'CLOSE'
+    if k in ('noop', 'check'):
+        return k.upper().encode()
+    if k == 'status':
+        return b'STATUS ' + names[cmd['box']].encode() + b' (MESSAGES RECENT UIDNEXT UIDVALIDITY UNSEEN)'
+    if k == 'search':
+        return u + b'SEARCH ' + b' '.join(render_key(x) for x in cmd['keys'])
+    if k in ('create', 'delete'):
+        return k.upper().encode() + b' ' + names[cmd['box']].encode()
+    if k == 'rename':
+        return b'RENAME ' + names[cmd['from']].encode() + b' ' + names[cmd['to']].encode()
     raise ValueError(k)
 
 
@@ -560,7 +663,23 @@ def enc_cmd(cmd: dict) -> str:
     if k == 'select':
         return f'(CSelect {cmd["box"]}%N {b(cmd["ro"])})'
     if k == 'append':
-        return f'(CAppend {cmd["box"]}%N {enc_fset(cmd["flags"])} {cmd["date"]}%N {cmd["cid"]}%N)'
+        ms = T.lst(f'(mkAmsg {enc_fset(m["flags"])} {m["date"]}%N {m.get("cid", 0)}%N '
+                   f'{b(bool(m.get("fail")))})' for m in cmd['msgs'])
+        return f'(CAppend {cmd["box"]}%N {ms})'
+    if k == 'noop':
+        return 'CNoop'
+    if k == 'check':
+        return 'CCheck'
+    if k == 'status':
+        return f'(CStatus {cmd["box"]}%N)'
+    if k == 'search':
+        return f'(CSearch {b(cmd["uid"])} {T.lst(enc_key(x) for x in cmd["keys"])})'
+    if k == 'create':
+        return f'(CCreate {cmd["box"]}%N {cmd.get("uidv", 0)}%N)'
+    if k == 'delete':
+        return f'(CDelete {cmd["box"]}%N)'
+    if k == 'rename':
+        return f'(CRename {cmd["from"]}%N {cmd["to"]}%N {cmd.get("uidv", 0)}%N)'
     op = {'replace': 'OpReplace', 'add': 'OpAdd', 'delete': 'OpDelete'}
     if k == 'store':
         return (f'(CStore {b(cmd["uid"])} {enc_seqset(cmd["ss"])} {op[cmd["op"]]} '
@@ -588,12 +707,13 @@ def enc_code(c) -> str:
     if c is None:
         return 'CNone'
     if c[0] == 'APPENDUID':
-        return f'(CAppendUid {c[1][0]}%N)' if len(c[1]) == 1 else '(CAppendUid 0%N)'
+        return f'(CAppendUid {T.nlist(c[1])})'
     if c[0] == 'COPYUID':
         return f'(CCopyUid {T.nlist(c[1])} {T.nlist(c[2])})'
     return {'READ-ONLY': 'CReadOnly', 'READ-WRITE': 'CReadWrite', 'TRYCREATE': 'CTryCreate',
-            'NONEXISTENT': 'CNonexistent', 'EXPUNGEISSUED': 'CExpungeIssued'}.get(
-                c[0], '(CAppendUid 999999%N)')
+            'NONEXISTENT': 'CNonexistent', 'EXPUNGEISSUED': 'CExpungeIssued',
+            'ALREADYEXISTS': 'CAlreadyExists', 'CANNOT': 'CCannot', 'SERVERBUG': 'CServerBug'}.get(
+                c[0], '(CAppendUid [999999%N])')
 
 
 def enc_untagged(u) -> str:
@@ -614,7 +734,13 @@ def enc_untagged(u) -> str:
         _, ex, rec, nxt, uns, perm = u
         return (f'(USelect {ex or 0}%N {rec or 0}%N {nxt or 0}%N {enc_optN(uns)} '
                 f'{enc_fset(perm or [])})')
-    return '(UExists 999999999%N)'   # BYE etc.: never produced by the model
+    if k == 'STATUS':
+        return '(UStatus ' + ' '.join(f'{(x if x is not None else 999999)}%N' for x in u[1:]) + ')'
+    if k == 'SEARCH':
+        return f'(USearch {T.nlist(u[1])})'
+    if k == 'BYE':
+        return 'UBye'
+    return '(UExists 999999999%N)'   # never produced by the model
 
 
 def enc_out(o: dict) -> str:
@@ -628,19 +754,33 @@ def enc_msg(m: dict) -> str:
 
 
 def enc_dump(d: list[dict], env: Env) -> str:
-    return T.lst(T.pair(f'{env.box_id(b["name"])}%N', T.lst(enc_msg(m) for m in b['msgs']),
-                        f'{b["maxuid"]}%N') for b in d)
+    return T.lst(T.pair(f'{env.box_id(b["name"])}%N',
+                        'None' if b.get('absent') else
+                        '(Some ' + T.pair(T.lst(enc_msg(m) for m in b['msgs']),
+                                          f'{b["maxuid"]}%N', f'{b["uidv"]}%N') + ')') for b in d)
 
 
 def enc_boxes(d: list[dict], env: Env) -> str:
+    d = [b for b in d if not b.get('absent')]
     return T.lst(T.pair(f'{env.box_id(b["name"])}%N',
                         f'(mkBox {T.lst(enc_msg(m) for m in b["msgs"])} {b["maxuid"]}%N '
-                        f'{T.boolean(b["ro"])} {enc_fset(b["perm"])})') for b in d)
+                        f'{T.boolean(b["ro"])} {enc_fset(b["perm"])} {b["uidv"]}%N)') for b in d)
+
+
+def enc_ext(op: dict) -> str:
+    opn = {'replace': 'OpReplace', 'add': 'OpAdd', 'delete': 'OpDelete'}
+    if op['k'] == 'wstore':
+        return (f'(XStore {op["box"]}%N {T.nlist(op["uids"])} {opn[op["op"]]} '
+                f'{enc_fset(op["flags"])})')
+    if op['k'] == 'wappend':
+        return f'(XAppend {op["box"]}%N {enc_fset(op["flags"])} {op["date"]}%N {op["cid"]}%N)'
+    return f'(XExpunge {op["box"]}%N)'
 
 
 def enc_case(env: Env, init: list[dict], steps: list[dict]) -> str:
-    """Per step only the mailboxes whose dump changed are listed (all of them
-    at the last step): the checker looks up every listed mailbox."""
+    """A step is a command of the session under test (with its response) or a change
+    made by another connection ('ext').  Per step only the mailboxes whose dump
+    changed are listed (all of them at the last step)."""
     bk = 'Dict' if env.kind == 'dict' else 'Maildir'
     prev = {b['name']: canon_dump([b]) for b in init}
     items = []
@@ -652,7 +792,11 @@ def enc_case(env: Env, init: list[dict], steps: list[dict]) -> str:
             if last or prev.get(b['name']) != c:
                 listed.append(b)
             prev[b['name']] = c
-        items.append(T.pair(enc_cmd(s['cmd']), enc_out(s['out']), enc_dump(listed, env)))
+        if 'ext' in s:
+            items.append(T.pair(f'(LExt {enc_ext(s["ext"])})', 'None', enc_dump(listed, env)))
+        else:
+            items.append(T.pair(f'(LCmd {enc_cmd(s["cmd"])})', f'(Some {enc_out(s["out"])})',
+                                enc_dump(listed, env)))
     return T.pair(bk, enc_boxes(init, env), T.lst(items))
 
 
@@ -702,17 +846,20 @@ class PyRef:
     def __init__(self, kind: str, init: list[dict]) -> None:
         self.kind = kind
         self.boxes = {}
+        self.all_names = [b['name'] for b in init]
         for b in init:
+            if b.get('absent'):
+                continue
             self.boxes[b['name']] = {
                 'msgs': {m['uid']: {'flags': set(m['flags']), 'date': m['date'],
                                     'cid': m['cid'], 'recent': m['recent']} for m in b['msgs']},
-                'next': b['maxuid'] + 1, 'ro': b['ro'], 'perm': set(b['perm'])}
+                'next': b['maxuid'] + 1, 'ro': b['ro'], 'perm': set(b['perm']), 'uidv': b['uidv']}
         self.sel = None          # (name, readonly)
         self.recent: set[int] = set()
 
     # -- helpers
     def _uids(self, box):
-        return sorted(self.boxes[box]['msgs'])
+        return sorted(self.boxes[box]['msgs']) if box in self.boxes else []
 
     @staticmethod
     def _expand(ss, star: int) -> set[int]:
@@ -781,7 +928,16 @@ class PyRef:
     # -- commands
     def step(self, cmd: dict, names: list[str]) -> dict:
         k = cmd['k']
-        res = getattr(self, '_' + k)(cmd, names)
+        if self.sel and self.sel[0] not in self.boxes and \
+                k in ('noop', 'check', 'store', 'expunge', 'copy', 'move', 'fetch', 'search'):
+            ro_first = self.sel[1] and k in ('store', 'expunge', 'move')
+            res = {'cond': 'NO', 'code': ('READ-ONLY',) if ro_first else ('NONEXISTENT',)}
+        elif self.sel and self.sel[0] not in self.boxes and k == 'close':
+            self.sel = None
+            self.recent = set()
+            res = {'cond': 'OK'}
+        else:
+            res = getattr(self, '_' + k)(cmd, names)
         res.setdefault('code', None)
         res.setdefault('untagged', [])
         return res
@@ -814,15 +970,29 @@ class PyRef:
         name = names[cmd['box']]
         if name not in self.boxes:
             return {'cond': 'NO', 'code': ('TRYCREATE',)}
-        if self.boxes[name]['ro']:
+        b = self.boxes[name]
+        if b['ro']:
             return {'cond': 'NO', 'code': ('READ-ONLY',)}
-        n0 = len(self.boxes[name]['msgs'])
+        msgs = cmd['msgs']
+        if any(m.get('fail') for m in msgs):
+            # RFC 3502: MULTIAPPEND is atomic; the server gives up the connection
+            tried = 0
+            for m in msgs:
+                if m.get('fail'):
+                    break
+                tried += 1
+            b['next'] += tried
+            self.sel = None
+            self.recent = set()
+            return {'cond': 'BYE', 'code': ('SERVERBUG',)}
+        n0 = len(b['msgs'])
         r0 = self._nrecent(name) if self.sel and self.sel[0] == name else 0
-        u = self._deliver(name, self._storable(name, cmd['flags']), cmd['date'], cmd['cid'])
+        uids = [self._deliver(name, self._storable(name, m['flags']), m['date'], m['cid'])
+                for m in msgs]
         un = []
         if self.sel and self.sel[0] == name:
-            un = self._announce_new(name, n0, r0, [u], False)
-        return {'cond': 'OK', 'code': ('APPENDUID', [u]), 'untagged': un}
+            un = self._announce_new(name, n0, r0, uids, False)
+        return {'cond': 'OK', 'code': ('APPENDUID', uids), 'untagged': un + self._gone()}
 
     def _need_sel(self):
         return None if self.sel else {'cond': 'BAD'}
@@ -906,7 +1076,7 @@ class PyRef:
         pairs = []
         for _seq, u in src:
             m = self.boxes[box]['msgs'][u]
-            pairs.append((u, self._deliver(dest, set(m['flags']), m['date'], m['cid'])))
+            pairs.append((u, self._deliver(dest, self._storable(dest, m['flags']), m['date'], m['cid'])))
         code = ('COPYUID', [a for a, _ in pairs], [b for _, b in pairs]) if pairs else None
         un = []
         if move:
@@ -945,6 +1115,104 @@ class PyRef:
                        m['cid'] if any(c for _n, _s, c in attrs) else None))
         return {'cond': 'OK', 'untagged': un}
 
+    # -- commands that do not act on messages
+    def _gone(self):
+        """the selected mailbox no longer exists: the session is told BYE"""
+        if self.sel and self.sel[0] not in self.boxes:
+            self.sel = None
+            self.recent = set()
+            return [('BYE',)]
+        return []
+
+    def _noop(self, cmd, names):
+        return {'cond': 'OK'}
+
+    def _check(self, cmd, names):
+        return {'cond': 'OK'} if self.sel else {'cond': 'BAD'}
+
+    def _status(self, cmd, names):
+        name = names[cmd['box']]
+        if name not in self.boxes:
+            return {'cond': 'NO', 'code': ('NONEXISTENT',)}
+        b = self.boxes[name]
+        if self.sel and self.sel[0] == name:
+            recent = len(self.recent & set(b['msgs']))
+        else:
+            recent = sum(1 for m in b['msgs'].values() if m['recent'])
+        unseen = sum(1 for m in b['msgs'].values() if b'\\Seen' not in m['flags'])
+        return {'cond': 'OK', 'untagged': [('STATUS', cmd['box'], len(b['msgs']), recent, b['next'],
+                                            b['uidv'], unseen)] + self._gone()}
+
+    def _key(self, box, seq, u, k) -> bool:
+        kind = k[0]
+        if kind == 'all':
+            return True
+        fl = self._shown(box, u)
+        if kind == 'flag':
+            return (canon_flag(k[1]) in fl) == k[2]
+        if kind == 'new':
+            return b'\\Recent' in fl and b'\\Seen' not in fl
+        if kind == 'set':
+            uids = self._uids(box)
+            if k[1]:
+                return u in self._expand(k[2], uids[-1] if uids else 0)
+            return seq in self._expand(k[2], len(uids))
+        if kind == 'not':
+            return not self._key(box, seq, u, k[1])
+        if kind == 'or':
+            return self._key(box, seq, u, k[1]) or self._key(box, seq, u, k[2])
+        raise ValueError(k)
+
+    def _search(self, cmd, names):
+        if not self.sel:
+            return {'cond': 'BAD'}
+        box = self.sel[0]
+        hits = [(i + 1, u) for i, u in enumerate(self._uids(box))
+                if all(self._key(box, i + 1, u, k) for k in cmd['keys'])]
+        return {'cond': 'OK', 'untagged': [('SEARCH', [u if cmd['uid'] else q for q, u in hits])]}
+
+    def _new_box(self, uidv):
+        return {'msgs': {}, 'next': 101 if self.kind == 'dict' else 1, 'ro': False,
+                'perm': {canon_flag(f) for f in SYS5}, 'uidv': uidv}
+
+    def _create(self, cmd, names):
+        name = names[cmd['box']]
+        if name == 'INBOX':
+            return {'cond': 'NO'}
+        if name in self.boxes:
+            return {'cond': 'NO', 'code': ('ALREADYEXISTS',)}
+        self.boxes[name] = self._new_box(cmd['uidv'])
+        return {'cond': 'OK', 'untagged': self._gone()}
+
+    def _delete(self, cmd, names):
+        name = names[cmd['box']]
+        if name == 'INBOX':
+            return {'cond': 'NO'}
+        if name not in self.boxes:
+            return {'cond': 'NO', 'code': ('NONEXISTENT',)}
+        del self.boxes[name]
+        return {'cond': 'OK', 'untagged': self._gone()}
+
+    def _rename(self, cmd, names):
+        src, dst = names[cmd['from']], names[cmd['to']]
+        if dst == 'INBOX':
+            return {'cond': 'NO'}
+        if src == 'INBOX' and self.kind == 'maildir':
+            return {'cond': 'NO', 'code': ('CANNOT',)}
+        if src not in self.boxes:
+            return {'cond': 'NO', 'code': ('NONEXISTENT',)}
+        if dst in self.boxes:
+            return {'cond': 'NO', 'code': ('ALREADYEXISTS',)}
+        self.boxes[dst] = self.boxes.pop(src)
+        if src == 'INBOX':          # RFC 3501 6.3.5: INBOX is left empty, not removed
+            self.boxes['INBOX'] = self._new_box(cmd['uidv'])
+            if self.sel and self.sel[0] == 'INBOX':
+                # the messages this session has selected now live under another name: its
+                # selection denotes no mailbox any more (it learns that with its next command)
+                self.sel = ('\0gone', self.sel[1])
+                return {'cond': 'OK'}
+        return {'cond': 'OK', 'untagged': self._gone()}
+
     # -- another client changes a mailbox (plain state change, nothing is reported here)
     def interfere(self, op: dict, names: list[str]) -> None:
         box = names[op['box']]
@@ -981,8 +1249,12 @@ class PyRef:
 
     def snapshot(self) -> list[dict]:
         out = []
-        for name, b in self.boxes.items():
-            out.append({'name': name, 'maxuid': b['next'] - 1,
+        for name in self.all_names:
+            if name not in self.boxes:
+                out.append({'name': name, 'absent': True})
+                continue
+            b = self.boxes[name]
+            out.append({'name': name, 'maxuid': b['next'] - 1, 'uidv': b['uidv'],
                         'msgs': [{'uid': u, 'flags': frozenset(m['flags']), 'date': m['date'],
                                   'cid': m['cid'], 'recent': m['recent']}
                                  for u, m in sorted(b['msgs'].items())]})
@@ -994,7 +1266,7 @@ def canon_out(o: dict) -> tuple:
 
 
 def canon_dump(d: list[dict]) -> list:
-    return [(b['name'], b['maxuid'],
+    return [(b['name'], None) if b.get('absent') else (b['name'], b['maxuid'], b['uidv'],
              [(m['uid'], frozenset(m['flags']), m['date'], m['cid'], m['recent'])
               for m in b['msgs']]) for b in d]
 
@@ -1043,30 +1315,62 @@ def gen_flags(rng, kind: str, allow_recent: bool = True):
     return [canon_flag(f) for f in chosen], spelled
 
 
+def gen_amsg(rng, env: Env, nextcid, fail: bool = False) -> dict:
+    fl, sp = gen_flags(rng, env.kind, allow_recent=True)     # \\Recent in APPEND is dropped
+    m = {'flags': fl, 'spelled': sp, 'date': rng.randrange(0, 2_000_000_000),
+         'zone': rng.choice([0, 0, 60, -300, 330, 765])}
+    if fail:
+        m['fail'] = True
+    else:
+        m['cid'] = nextcid()
+    return m
+
+
+def gen_key(rng, n: int, uids: list[int], depth: int = 0):
+    r = rng.random()
+    if depth < 2 and r < 0.12:
+        return ('not', gen_key(rng, n, uids, depth + 1))
+    if depth < 2 and r < 0.22:
+        return ('or', gen_key(rng, n, uids, depth + 1), gen_key(rng, n, uids, depth + 1))
+    if r < 0.3:
+        return ('all',)
+    if r < 0.36:
+        return ('new',)
+    if r < 0.75:
+        return ('flag', rng.choice(SYS5 * 2 + [b'\\Recent', b'\\Recent'] + KEYWORDS[:4]),
+                rng.random() < 0.6)
+    uid = rng.random() < 0.5
+    return ('set', uid, gen_seqset(rng, n, uid, uids))
+
+
 def gen_cmd(rng, env: Env, ref: PyRef, weights: dict, nextcid) -> dict:
-    kinds = list(weights)
-    if ref.sel is None and 'select' in weights and rng.random() < 0.85:
-        k = rng.choice(['select', 'select', 'select', 'append'])   # mostly leave the BAD state
+    kinds = [x for x in weights if x != 'fail']
+    if ref.sel is None and 'select' in weights and rng.random() < 0.8:
+        k = rng.choice(['select', 'select', 'select', 'append', 'status'])   # leave the BAD state
     elif ref.sel is None and rng.random() < 0.7:
         k = 'append'
     else:
         k = rng.choices(kinds, [weights[x] for x in kinds])[0]
-    nb = len(env.names)
     sel = ref.sel[0] if ref.sel else None
     uids = ref._uids(sel) if sel else []
     n = len(uids)
+    have = [i for i, nm in enumerate(env.names) if nm in ref.boxes]
+    missing = [i for i, nm in enumerate(env.names) if nm not in ref.boxes]
 
     def box(real_bias=0.9):
-        return rng.randrange(3) if rng.random() < real_bias else 3
+        if missing and rng.random() >= real_bias:
+            return rng.choice(missing)
+        return rng.choice(have)
 
     uid = rng.random() < 0.45
     if k == 'select':
         return {'k': 'select', 'box': box(0.95), 'ro': rng.random() < 0.35}
     if k == 'append':
-        fl, sp = gen_flags(rng, env.kind, allow_recent=False)
-        return {'k': 'append', 'box': box(), 'flags': fl, 'spelled': sp,
-                'date': rng.randrange(0, 2_000_000_000),
-                'zone': rng.choice([0, 0, 60, -300, 330, 765]), 'cid': nextcid()}
+        nmsg = rng.choice([1, 1, 1, 1, 2, 3])
+        msgs = [gen_amsg(rng, env, nextcid) for _ in range(nmsg)]
+        if 'fail' in weights and rng.random() < weights['fail']:
+            msgs.insert(rng.randrange(len(msgs) + 1), gen_amsg(rng, env, nextcid, fail=True))
+        return {'k': 'append', 'box': box(), 'msgs': msgs}
     if k == 'store':
         fl, sp = gen_flags(rng, env.kind)
         if rng.random() < 0.35 and b'\\Deleted' not in fl:
@@ -1086,21 +1390,38 @@ def gen_cmd(rng, env: Env, ref: PyRef, weights: dict, nextcid) -> dict:
     if k == 'fetch':
         return {'k': 'fetch', 'uid': uid, 'ss': gen_seqset(rng, n, uid, uids),
                 'attrs': rng.randrange(len(FETCH_MENU))}
-    if k == 'close':
-        return {'k': 'close'}
+    if k in ('close', 'noop', 'check'):
+        return {'k': k}
+    if k == 'status':
+        return {'k': 'status', 'box': env.names.index(sel) if sel and rng.random() < 0.45 else box(0.9)}
+    if k == 'search':
+        return {'k': 'search', 'uid': uid,
+                'keys': [gen_key(rng, n, uids) for _ in range(rng.choice([1, 1, 2, 3]))]}
+    if k == 'create':
+        return {'k': 'create', 'box': box(0.25)}
+    if k == 'delete':
+        # deleting / renaming the selected mailbox ends the connection: keep it rare
+        cand = [i for i in have if env.names[i] != sel or rng.random() < 0.15] or have
+        return {'k': 'delete', 'box': rng.choice(cand) if rng.random() < 0.85 else box(0.0)}
+    if k == 'rename':
+        cand = [i for i in have if env.names[i] != sel or rng.random() < 0.15] or have
+        return {'k': 'rename', 'from': rng.choice(cand) if rng.random() < 0.85 else box(0.0),
+                'to': box(0.15)}
     raise ValueError(k)
 
 
-C10_WEIGHTS = {'select': 9, 'append': 14, 'store': 24, 'expunge': 7, 'uidexpunge': 6,
-               'copy': 10, 'move': 9, 'fetch': 15, 'close': 4}
-C12_WEIGHTS = {'append': 12, 'store': 22, 'expunge': 9, 'uidexpunge': 7,
-               'copy': 13, 'move': 15, 'fetch': 18, 'close': 4}
+C10_WEIGHTS = {'select': 9, 'append': 13, 'store': 22, 'expunge': 7, 'uidexpunge': 5,
+               'copy': 9, 'move': 8, 'fetch': 13, 'close': 3, 'noop': 2, 'check': 2,
+               'status': 5, 'search': 8, 'create': 3, 'delete': 2, 'rename': 3, 'fail': 0.04}
+C12_WEIGHTS = {'append': 11, 'store': 20, 'expunge': 8, 'uidexpunge': 6,
+               'copy': 12, 'move': 13, 'fetch': 16, 'close': 3, 'noop': 2, 'check': 2,
+               'status': 4, 'search': 7}
 
 
 # ------------------------------------------------------- interfering writer
 def gen_wop(rng, env: Env, ref: PyRef, nextcid) -> dict:
     """a change made by ANOTHER connection: flags, a delivery, or an expunge"""
-    writable = [i for i, n in enumerate(env.real) if not ref.boxes[n]['ro']]
+    writable = [i for i, n in enumerate(env.names) if n in ref.boxes and not ref.boxes[n]['ro']]
     box = rng.choice(writable)
     if ref.sel and not ref.boxes[ref.sel[0]]['ro'] and rng.random() < 0.75:
         box = env.names.index(ref.sel[0])
@@ -1132,12 +1453,12 @@ def render_wop(op: dict, names: list[str]) -> list[bytes]:
         return [b'APPEND ' + nm + b' (' + b' '.join(op['spelled']) + b') '
                 + render_date(op['date']) + b' {%d}\r\n' % len(lit) + lit]
     if op['k'] == 'wexpunge':
-        return [b'SELECT ' + nm, b'EXPUNGE', b'SELECT Nope']
+        return [b'SELECT ' + nm, b'EXPUNGE', b'SELECT NoSuchBox']
     item = {'replace': b'', 'add': b'+', 'delete': b'-'}[op['op']] + b'FLAGS.SILENT'
     return [b'SELECT ' + nm,
             b'UID STORE ' + b','.join(b'%d' % u for u in op['uids']) + b' ' + item
             + b' (' + b' '.join(op['spelled']) + b')',
-            b'SELECT Nope']
+            b'SELECT NoSuchBox']
 
 
 def gen_uid_cmd(rng, env: Env, ref: PyRef, nextcid, known=None) -> dict:
@@ -1160,4 +1481,5 @@ def gen_uid_cmd(rng, env: Env, ref: PyRef, nextcid, known=None) -> dict:
                 'silent': rng.random() < 0.5, 'flags': fl, 'spelled': sp}
     if k == 'fetch':
         return {'k': 'fetch', 'uid': True, 'ss': ss, 'attrs': rng.randrange(len(FETCH_MENU))}
-    return {'k': k, 'uid': True, 'ss': ss, 'dest': rng.randrange(3)}
+    return {'k': k, 'uid': True, 'ss': ss,
+            'dest': rng.choice([i for i, n in enumerate(env.names) if n in ref.boxes])}
